@@ -1031,7 +1031,9 @@ def find_format_functions():
 
 def format_inventory(bdir):
     """[(file, enclosing function, callee, line)] of printf-style calls whose format argument is not a string
-    literal (clang-query AST matcher over every C/C++ source of src/ and lib/)"""
+    literal (clang-query AST matcher over every C/C++ source of src/ and lib/).  A format counts as literal when it
+    is a string literal, possibly parenthesised / cast, or `c ? "lit1" : "lit2"` with BOTH arms such literals; a
+    conditional with any other arm is reported."""
     fns = dict(LIBC_FMT)
     fns.update(find_format_functions())
     if "error" not in fns:
@@ -1044,7 +1046,7 @@ def format_inventory(bdir):
     with open(qf, "w") as f:
         f.write("set output diag\n")
         for idx, names in sorted(by_idx.items()):
-            f.write('match callExpr(callee(functionDecl(hasAnyName(%s)).bind("callee")), hasArgument(%d, expr(unless(anyOf(ignoringParenImpCasts(stringLiteral()), ignoringParenImpCasts(conditionalOperator(hasTrueExpression(ignoringParenImpCasts(stringLiteral())), hasFalseExpression(ignoringParenImpCasts(stringLiteral())))))))), forFunction(functionDecl().bind("f")))\n'
+            f.write('match callExpr(callee(functionDecl(hasAnyName(%s)).bind("callee")), hasArgument(%d, expr(unless(anyOf(ignoringParenCasts(stringLiteral()), ignoringParenCasts(conditionalOperator(hasTrueExpression(ignoringParenCasts(stringLiteral())), hasFalseExpression(ignoringParenCasts(stringLiteral())))))))), forFunction(functionDecl().bind("f")))\n'
                     % (", ".join('"%s"' % n for n in sorted(names)), idx - 1))
     files = []
     for root in ("src", "lib"):
